@@ -38,7 +38,7 @@ func init() {
 			"pkg/engine contains no lock, channel or go statement (verified syntactically on every run), so concurrent renders have one schedule class at synchronisation granularity; data races are outside a cooperative explorer",
 			"part 1 runs in a build where every range-over-map of the listed packages is rewritten (with type information, from the current working tree) to iterate through an order chosen by the explorer",
 		},
-		RequiredFloors: []string{"determinism", "confine", "history-independence", "confine-actions-positive"},
+		RequiredFloors: []string{"determinism", "confine", "history-independence", "confine-actions-positive", "fresh-process"},
 	})
 }
 
